@@ -660,9 +660,18 @@ pub fn run(seed: u64) -> RunReport {
     {
         let inst = r.world.inst(0);
         inst.enter();
+        // Half of the runs replace the identity in a request that also
+        // (re)states the child's resources, as `krillc children update`
+        // does when given both: every field of the request must take
+        // effect.
+        let combined = seed % 2 == 0;
+        let mut req = api::admin::UpdateChildRequest::id_cert(a2.cert.clone());
+        if combined {
+            req.resources = Some(res_a.clone());
+            cases.insert("6492.id_update_combined".into());
+        }
         let res = block_on(inst.mgr().ca_child_update(
-            handle(PARENT), ChildHandle::from_str("kidA").unwrap(),
-            api::admin::UpdateChildRequest::id_cert(a2.cert.clone()), ADMIN
+            handle(PARENT), ChildHandle::from_str("kidA").unwrap(), req, ADMIN
         ));
         if let Err(err) = res {
             report.harness_error = Some(format!("id update: {err:?}"));
